@@ -271,6 +271,13 @@ func ruleKey(c *Ctx) {
 			src *Term // nil = separator
 		}
 		ws := []wr{}
+		// copy into a buffer sized for all components returns len(src): offsets advanced by copy's result are read that way
+		subst := map[string]*Term{}
+		for _, e := range pr.Events {
+			if e.Kind == "builtin" && e.CalleeT.Name == "copy" && len(e.Args) == 2 && e.Result != nil {
+				subst[e.Result.Key()] = &Term{Op: "len", Type: tInt, Args: []*Term{stripConvTerm(e.Args[1])}}
+			}
+		}
 		for _, e := range pr.Events {
 			if e.Kind == "builtin" && e.CalleeT.Name == "copy" && len(e.Args) == 2 {
 				d := e.Args[0]
@@ -309,7 +316,7 @@ func ruleKey(c *Ctx) {
 		wantSrc := []string{"Method", "", "Host", "", "uri"}
 		var off *Term = intTerm(0)
 		for i, w := range ws {
-			if !sameLinear(w.off, off) {
+			if !sameLinear(substTerm(w.off, subst), off) {
 				comps = append(comps, fmt.Sprintf("component %d is written at offset %s, expected %s (components overlap or leave gaps) on %s", i, prettyTerm(w.off), prettyTerm(off), where))
 			}
 			if w.src == nil {
@@ -330,6 +337,11 @@ func ruleKey(c *Ctx) {
 				for _, l := range pr.Conds {
 					if l.Atom.Op == "eq" && l.Pol && l.Atom.Args[0].Op == "len" && fieldName(l.Atom.Args[0].Args[0]) == "RequestURI" {
 						uriEmpty = true
+					}
+					if l.Atom.Op == "eq" && l.Pol && fieldName(l.Atom.Args[0]) == "RequestURI" {
+						if sv, ok := l.Atom.Args[1].StrVal(); ok && sv == "" {
+							uriEmpty = true
+						}
 					}
 				}
 				if !(fnm == "RequestURI" && !uriEmpty) && !(fnm == "URL.String()" && uriEmpty) {
@@ -646,9 +658,9 @@ func ruleCapacity(c *Ctx) {
 	sizeF := c.P.StructField("cache", "DispatcherOption", "Size")
 	n, news := 0, 0
 	bad, sum := []string{}, []string{}
-	sim := c.P.Simulate(fn, SimConfig{Inline: func(callee *ssa.Function, d int) bool {
+	sim := c.P.Simulate(fn, SimConfig{Inline: orHelpers(fn, func(callee *ssa.Function, d int) bool {
 		return inPkg(callee, "cache") && callee.Name() == "newHTTPLRUCache"
-	}}, func(pr *PathResult) {
+	})}, func(pr *PathResult) {
 		n++
 		where := "path [" + condString(pr.Conds) + "]"
 		var sizeSym *Term
@@ -936,7 +948,21 @@ func rulePurgeAll(c *Ctx) {
 	}
 	// the Range callback: calls RemoveHTTPCache(key) on every dispatcher and always returns true
 	cb := 0
-	for _, an := range fn.AnonFuncs {
+	cbs := []*ssa.Function{}
+	for g := range staticScope(fn, "cache", 2) {
+		for _, b := range g.Blocks {
+			for _, in := range b.Instrs {
+				if ci, ok := in.(ssa.CallInstruction); ok {
+					if sc := ci.Common().StaticCallee(); sc != nil && sc.String() == "(*sync.Map).Range" {
+						if mc, ok := ci.Common().Args[1].(*ssa.MakeClosure); ok {
+							cbs = append(cbs, mc.Fn.(*ssa.Function))
+						}
+					}
+				}
+			}
+		}
+	}
+	for _, an := range cbs {
 		c.P.Simulate(an, SimConfig{}, func(pr *PathResult) {
 			cb++
 			if len(pr.Results) != 1 || !pr.Results[0].IsTrue() {
@@ -977,6 +1003,39 @@ func ruleEntryWriters(c *Ctx, a *cacheAnchors) {
 	}
 	if a.initFromStore != nil {
 		verified[a.initFromStore] = true
+	}
+	// helpers of the verified functions: every call site lies in a verified function (or another such helper) and
+	// passes that function's own receiver, so the helper's stores are part of the paths the verified rules analyse
+	for changed := true; changed; {
+		changed = false
+		for _, f := range c.P.allFuncs {
+			if verified[f] || !isHelper(f) || !inPkg(f, "cache") || len(f.Params) == 0 {
+				continue
+			}
+			sites, ok := 0, true
+			for _, g := range c.P.allFuncs {
+				for _, b := range g.Blocks {
+					for _, in := range b.Instrs {
+						if ci, isCall := in.(ssa.CallInstruction); isCall && ci.Common().StaticCallee() == f {
+							sites++
+							if _, isGo := in.(*ssa.Go); isGo {
+								ok = false
+							}
+							arg := ci.Common().Args[0]
+							if !(verified[g] && len(g.Params) > 0 && arg == ssa.Value(g.Params[0])) {
+								if _, isAlloc := arg.(*ssa.Alloc); !isAlloc {
+									ok = false
+								}
+							}
+						}
+					}
+				}
+			}
+			if ok && sites > 0 {
+				verified[f] = true
+				changed = true
+			}
+		}
 	}
 	n := 0
 	bad := []string{}
@@ -1034,3 +1093,121 @@ func ruleEntryWriters(c *Ctx, a *cacheAnchors) {
 }
 
 const addTok = token.ADD
+
+// ruleLRUContract (thorough tier, whole-program SSA): re-confirms in the
+// dependency's own code the contract the capacity and locking rules assume:
+// Add evicts exactly when MaxEntries != 0 and the list is longer than it (so 0
+// means "no limit"), New stores its argument in MaxEntries, and Get reorders the
+// list (so lookups need the exclusive lock).
+func ruleLRUContract(c *Ctx) {
+	if !c.P.Whole {
+		return
+	}
+	var add, get, newf *ssa.Function
+	for fn := range ssautilAll(c.P) {
+		switch fn.String() {
+		case "(*github.com/golang/groupcache/lru.Cache).Add":
+			add = fn
+		case "(*github.com/golang/groupcache/lru.Cache).Get":
+			get = fn
+		case "github.com/golang/groupcache/lru.New":
+			newf = fn
+		}
+	}
+	if add == nil || get == nil || newf == nil || add.Blocks == nil {
+		c.undecided("lru-contract", "groupcache/lru", "-", "dependency functions not found in the whole-program SSA")
+		return
+	}
+	bad := []string{}
+	n := 0
+	c.P.Simulate(add, SimConfig{}, func(pr *PathResult) {
+		n++
+		inserted, evicted := false, false
+		var maxZero *bool
+		over := false
+		for _, e := range pr.Events {
+			if e.Kind == "call" && e.Callee != nil {
+				switch e.Callee.Name() {
+				case "PushFront":
+					inserted = true
+				case "RemoveOldest":
+					evicted = true
+				}
+			}
+		}
+		for _, l := range pr.Conds {
+			if l.Atom.Op == "eq" && l.Atom.Args[0].Op == "init" && l.Atom.Args[0].Args[0].Name == "MaxEntries" {
+				if v, ok := l.Atom.Args[1].IntVal(); ok && v == 0 {
+					z := l.Pol
+					maxZero = &z
+				}
+			}
+			if l.Atom.Op == "lt" && l.Pol && l.Atom.Args[0].Op == "init" && l.Atom.Args[0].Args[0].Name == "MaxEntries" {
+				over = true
+			}
+		}
+		if !inserted {
+			return
+		}
+		if maxZero == nil {
+			bad = append(bad, "Add inserts without consulting MaxEntries")
+			return
+		}
+		if *maxZero && evicted {
+			bad = append(bad, "Add evicts although MaxEntries == 0")
+		}
+		if !*maxZero && over && !evicted {
+			bad = append(bad, "Add does not evict although the list is longer than MaxEntries")
+		}
+		if !*maxZero && !over && evicted {
+			bad = append(bad, "Add evicts although the list is within MaxEntries")
+		}
+	})
+	reorders := false
+	c.P.Simulate(get, SimConfig{}, func(pr *PathResult) {
+		n++
+		for _, e := range pr.Events {
+			if e.Kind == "call" && e.Callee != nil && e.Callee.Name() == "MoveToFront" {
+				reorders = true
+			}
+		}
+	})
+	if !reorders {
+		bad = append(bad, "Get no longer reorders the list (the write-lock requirement of the shard lookup would be stronger than needed, not wrong)")
+	}
+	stores := false
+	c.P.Simulate(newf, SimConfig{}, func(pr *PathResult) {
+		n++
+		for _, e := range pr.Events {
+			if e.Kind == "store" && e.Addr.Op == "fa" && e.Addr.Name == "MaxEntries" && e.Val.Op == "sym" {
+				stores = true
+			}
+		}
+	})
+	if !stores {
+		bad = append(bad, "lru.New does not store its argument in MaxEntries")
+	}
+	c.check(len(bad) == 0, "lru-contract", "groupcache/lru", "github.com/golang/groupcache/lru", fmt.Sprintf("%d paths of the dependency: New(n) sets MaxEntries=n; Add evicts iff MaxEntries != 0 and Len() > MaxEntries (0 = unlimited); Get calls MoveToFront", n), strings.Join(uniq(bad), " || "), n)
+}
+
+func ssautilAll(p *Program) map[*ssa.Function]bool {
+	out := map[*ssa.Function]bool{}
+	for _, pkg := range p.Prog.AllPackages() {
+		for _, m := range pkg.Members {
+			switch m := m.(type) {
+			case *ssa.Function:
+				out[m] = true
+			case *ssa.Type:
+				for _, t := range []types.Type{m.Type(), types.NewPointer(m.Type())} {
+					ms := p.Prog.MethodSets.MethodSet(t)
+					for i := 0; i < ms.Len(); i++ {
+						if f := p.Prog.MethodValue(ms.At(i)); f != nil {
+							out[f] = true
+						}
+					}
+				}
+			}
+		}
+	}
+	return out
+}
